@@ -31,7 +31,10 @@ def gen_case(tier):
     sub = st.lists(S.normal_indexes(), max_size=4)
     return st.fixed_dictionaries({
         "seed": S.seeds(16, 64), "testnet": st.booleans(), "paper": st.booleans(),
-        "export": st.lists(st.one_of(st.sampled_from([H + 44, H + 49, H + 84, H, H + 1, 0, 1]), S.indexes()), max_size=5),
+        "export": st.one_of(st.lists(st.one_of(st.sampled_from([H + 44, H + 49, H + 84, H, H + 1, 0, 1]), S.indexes()), max_size=5),
+                            # account-level nodes, the keys people actually export (also under a foreign purpose / normal components)
+                            st.tuples(st.sampled_from([H + 44, H + 49, H + 84, H + 7, 7]), st.sampled_from([H, H + 1, 8]),
+                                      st.sampled_from([H, H + 1, H + 2, H + 5])).map(list)),
         "subs": st.lists(sub, min_size=1, max_size=3),
         "bulk": st.one_of(st.none(), st.tuples(st.integers(0, 6), st.integers(1, 3))),
     })
@@ -247,6 +250,14 @@ def check_case(case, ctx):
             st_, v_ = call(WO.generate)
             if st_ == "ok":
                 raise Violation("C14/private/generate", "%s: generate() returned a record" % tag)
+            # the account sections start with three hardened levels below the wallet's root, whatever that root is
+            last = case["export"][-1] if case["export"] else 0
+            for acct in sorted({0, last - H if last >= H else 0}):
+                for meth in ("bip44", "bip49", "bip84"):
+                    st_, v_ = call(getattr(WO, meth), acct) if acct & 1 else call(getattr(WO, meth), account=acct)
+                    if st_ == "ok":
+                        raise Violation("C14/private/hardened-derived[account-section]", "%s (export node %s): %s(account=%d) returned %r "
+                                        "instead of refusing the hardened levels" % (tag, R.fmt_path(case["export"]), meth, acct, v_))
         # nothing returned, and nothing reachable from the watch-only object, holds private material
         no_private_strings("C14/private/returned-private-string", tag + " returned value", returned)
         bts, strs = [], []
@@ -366,6 +377,9 @@ def enum_deep(tier):
     for d, testnet in ((128, False), (200, True), (255 - 4, False)):
         yield {"seed": bytes([d]) * 16, "testnet": testnet, "paper": bool(d & 1),
                "export": [H + 44, H, 7] + [1] * (d - 3), "subs": [[0], [2, 1]], "bulk": None}
+    # the last levels a node can have: children of depth 254 and 255 are still serialisable public data
+    yield {"seed": b"\x53" * 16, "testnet": True, "paper": False, "export": [H + 84, H + 1, 3] + [2] * 250, "subs": [[0], [2, 1], [H - 1]], "bulk": (0, 2)}
+    yield {"seed": b"\x54" * 16, "testnet": False, "paper": True, "export": [H + 49, H, 3] + [1] * 251, "subs": [[5]], "bulk": None}
 
 
 def clauses():
